@@ -245,6 +245,36 @@ def run(ctx):
                     if not r2["data"].startswith(b"20 text/gemini\r\nupstream saw:"):
                         ctx.violation(f"server-wedged:after={kind}", "after a faulty upstream exchange the next request was not served", {"fault": kind, "next": r2["data"][:100], "error": r2["error"]})
             world.upstream.wait_idle(4)
+            # ---- B2. close / reset at every offset of a well-formed response (thorough: every offset; quick: a sample)
+            full = b"20 text/gemini; charset=utf-8\r\nbody line one\nbody line two\n"
+            hdr_end = full.find(b"\r\n") + 2
+            offsets = list(range(0, len(full))) if not ctx.quick() else [0, 1, 2, 3, hdr_end - 2, hdr_end - 1, hdr_end, hdr_end + 5]
+            for off in offsets:
+                for how in ("close", "reset"):
+                    k += 1
+                    if not ctx.mine(k):
+                        continue
+
+                    def fn(conn, off=off, how=how):
+                        conn.read_line(timeout=3)
+                        if off:
+                            conn.send(full[:off])
+                            time.sleep(0.02)
+                        conn.close() if how == "close" else conn.reset()
+
+                    world.upstream_script["fn"] = fn
+                    r = fetch(timeout=15)
+                    world.upstream.wait_idle(3)
+                    ctx.count("monitor", "exchanges")
+                    stage = f"{how}-at-offset:{'header' if off < hdr_end else 'body'}"
+                    if off >= hdr_end and how == "close":
+                        # a clean close inside/after the body of a 2x is indistinguishable from a shorter body: relayed as received
+                        ctx.count("monitor", "verbatim_compared")
+                        if r["data"] != full[:off]:
+                            ctx.violation("relay-altered:body:class=truncated-by-upstream-close", f"upstream closed cleanly after {off} bytes; downstream got {len(r['data'])} different bytes", {"upstream": full[:off], "downstream": r["data"][:120]})
+                    else:
+                        judge_fault(ctx, stage, r, {"offset": off})
+                    ctx.case(("cut", how, "header" if off < hdr_end else "body", r["data"][:2]), True, sample={"fault": stage, "offset": off, "downstream": r["data"][:60]})
             # ---- C. redirects are relayed, not followed
             if ctx.mine(1):
                 for code in (30, 31):
